@@ -314,3 +314,76 @@ def c09_tag_types(tier, rng):
                          "observed": repr(got), "required": "the tag value as a string, registered as the read's group"})
     return {"obligations": obl, "discharged": dis, "violations": viol, "cases": obl, "exhaustive": True, "bound": "7 tag shapes",
             "samples": [{"tag": "NM", "value": 3}]}
+
+
+# ---- discovered models: every read reaches the model counter once, with its own group ---------------------------------------------------------------
+def _forward_counts_problems(seed):
+    """the real GraphBasedModelConstructor.forward_counts on a random read -> models relation (a recording counter in place of the real
+    one): every read with at least one model is handed over exactly once, with exactly its models and ITS OWN read group; the number of
+    reads without a model is reported as unassigned"""
+    import random
+    import types
+    from collections import defaultdict
+    gm = native.repo_import("src/graph_based_model_construction.py")
+    rng = random.Random(seed)
+    groups = ["g%d" % k for k in range(rng.randint(1, 4))]
+    reads = ["r%d" % k for k in range(rng.randint(1, 9))]
+    group_of = {r: rng.choice(groups) for r in reads}
+    models = ["transcript%d.chr1.nic" % k for k in range(rng.randint(1, 4))]
+    rel = {r: sorted(rng.sample(models, rng.choice([0, 1, 1, 2, min(3, len(models))]) if len(models) > 1 else rng.choice([0, 1]))) for r in reads}
+    calls, unassigned, confirmed = [], [], []
+    counter = types.SimpleNamespace(add_read_info_raw=lambda read_id, feature_ids, group_id="NA": calls.append((read_id, sorted(feature_ids), group_id)),
+                                    add_unassigned=lambda n=1: unassigned.append(n),
+                                    add_confirmed_features=lambda f: confirmed.append(sorted(f)))
+    c = gm.GraphBasedModelConstructor.__new__(gm.GraphBasedModelConstructor)
+    c.transcript_counter = counter
+    c.transcript_read_ids = defaultdict(list)
+    order = list(models)
+    rng.shuffle(order)
+    for m in order:
+        rs = [r for r in reads if m in rel[r]]
+        rng.shuffle(rs)
+        for r in rs:
+            c.transcript_read_ids[m].append(types.SimpleNamespace(read_id=r, read_group=group_of[r]))
+    c.read_assignment_counts = defaultdict(int, {r: len(rel[r]) for r in reads})
+    c.transcript_model_storage = [types.SimpleNamespace(transcript_id=m) for m in models]
+    c.forward_counts()
+    problems = []
+    tag = "reads %s" % sorted((r, group_of[r], rel[r]) for r in reads)
+    for r in reads:
+        mine = [x for x in calls if x[0] == r]
+        if not rel[r]:
+            if mine:
+                problems.append("%s: %s has no model but is counted: %s" % (tag, r, mine))
+        elif len(mine) != 1:
+            problems.append("%s: %s is handed to the counter %d times" % (tag, r, len(mine)))
+        elif mine[0][1] != rel[r]:
+            problems.append("%s: %s is counted for %s" % (tag, r, mine[0][1]))
+        elif mine[0][2] != group_of[r]:
+            problems.append("%s: %s is counted under group %s" % (tag, r, mine[0][2]))
+    if sum(unassigned) != sum(1 for r in reads if not rel[r]):
+        problems.append("%s: %s reads reported as unassigned" % (tag, unassigned))
+    return problems
+
+
+def replay_forward_counts(d):
+    p = _forward_counts_problems(d["inputs"]["seed"])
+    return (not p), "seed %s: %s" % (d["inputs"]["seed"], p[:3] or "every read counted once under its own group")
+
+
+@bounded("C09.model_counts_groups", ["C09", "C02"], note="the real GraphBasedModelConstructor.forward_counts on random read -> discovered-model relations "
+         "(1-9 reads in 1-4 groups, 0-3 models per read): every read with a model reaches the model counter exactly once, with exactly its models "
+         "and its own read group; reads without a model are reported as unassigned")
+def c09_model_counts(tier, rng):
+    n = 400 if tier == "quick" else 20000
+    base = rng.randrange(10 ** 9)
+    for k in range(n):
+        try:
+            p = _forward_counts_problems(base + k)
+        except Exception as e:
+            p = ["exception %s: %s" % (type(e).__name__, e)]
+        if p:
+            return {"cases": k + 1, "bound": "%d relations" % n, "violations": [{
+                "obligation": "C09.model_counts_groups", "inputs": {"seed": base + k}, "observed": p[:3],
+                "required": "each read once, its models, its own group", "replay_call": "contracts.c_groups:replay_forward_counts"}]}
+    return {"cases": n, "bound": "%d random read -> model relations" % n, "violations": [], "samples": [{"seed": base}]}
